@@ -148,7 +148,9 @@ class EvalMixin:
             x, xt = self.ev(a[2], env); y, yt = self.ev(a[3], env)
             if op in ('==', '!='):
                 x, y = self.box_for_cmp(x, xt, y, yt)
-                r = self.equal(x, y, xt)
+                if isinstance(x, FuncV) and isinstance(y, FuncV): r = x.id == y.id          # contract language: identity of function values
+                elif isinstance(x, SliceV) and isinstance(y, SliceV): r = And(x.arr == y.arr, x.base == y.base, x.len == y.len, x.cap == y.cap)
+                else: r = self.equal(x, y, xt)
                 return (r if op == '==' else Not(r), 'bool')
             if op in ('<', '<=', '>', '>='):
                 if z3.is_expr(x) and z3.is_expr(y) and x.sort() != y.sort():
